@@ -22,6 +22,7 @@ ADD == 0  DEL == 1  ENABLE == 2  DISABLE == 3
 CB_ERROR == -1  CB_NONE == 0  CB_EOF == 1  CB_CONTINUE == 2
 EOF_SYS == 1  EOF_BUF == 2
 ETIMEDOUT == 110  EINVAL == 22  ENOENT == 2
+BIG == 100000000                              \* how the rig logs SIZE_MAX ("transfer as much as you can")
 ANYERR == -1                                  \* "some non-zero socket error" (SO_ERROR is not visible to the rig)
 ErrFilter(e) == IF e \in {4, 11, 16} THEN 0 ELSE e      \* SKT_ERR_FILTER: EINTR, EAGAIN = EWOULDBLOCK, EBUSY
 
@@ -117,7 +118,9 @@ EnableEnd(s, en, obs, rc) ==
       off == [s EXCEPT !.lastret = CB_NONE, !.io = [@ EXCEPT !.present = TRUE, !.dis = TRUE], !.tmr = IF HasT(s) /\ @.present THEN [@ EXCEPT !.dis = TRUE] ELSE @]
       ioFail(f) == T \o <<P("io", IoOp, s.cfg.ev, f), Fail>>
   IN
-  CASE rc = 0 /\ obs = EnablePosts(s, en) -> IF en THEN on(s.cfg.efl) ELSE off
+  CASE ~(IF HasT(s) THEN s.tmrEver ELSE s.ioEver) /\ rc = EINVAL /\ obs = << >> -> s         \* never scheduled: tpt_ev_validate refuses (no thread yet)
+    [] ~en /\ HasT(s) /\ ~s.tmr.present /\ s.tmrEver /\ rc = ENOENT /\ obs = T -> s     \* no timer to disable: the call gives up before the descriptor
+    [] rc = 0 /\ obs = EnablePosts(s, en) -> IF en THEN on(s.cfg.efl) ELSE off
     [] rc = 0 /\ ~en /\ obs = T \o <<P("io", DISABLE, s.cfg.ev, 0)>> -> off
     [] rc = 0 /\ en /\ s.cfg.efl # 0 /\ obs = T \o <<P("io", ENABLE, s.cfg.ev, 0)>> ->
          \* tpt_ev_enable_args1() re-arms with flags 0: the registration becomes persistent
@@ -159,7 +162,8 @@ PreEnd(s, obs) ==
                  ELSE IF s.cfg.efl = ONESHOT THEN [s EXCEPT !.tmr = NoReg]
                  ELSE [s EXCEPT !.tmr = IF @.present THEN [@ EXCEPT !.dis = TRUE] ELSE @]
            s2 == Chk(s1, obs = PreIoPosts(s), "PROPERTY:ArmingOps:pre-io")
-       IN IF s.buf.tr = 0 THEN ToCb(s2, s.h.err, s.h.eof, s.tot) ELSE [s2 EXCEPT !.pc = "xfer"]
+       IN IF s.cfg.typ = "notify" THEN ToCb(s2, s.h.err, s.h.eof, BIG)         \* tp_task_notify_handler: no I/O, the callback does it
+          ELSE IF s.buf.tr = 0 THEN ToCb(s2, s.h.err, s.h.eof, s.tot) ELSE [s2 EXCEPT !.pc = "xfer"]
 
 (* one recv / send / pread / pwrite of the transfer loop; r = what the wrapper saw *)
 Inc(v, max, n) == IF max > v /\ max - v > n THEN v + n ELSE max       \* IO_BUF_VALUE_IN_RANGE_INC
@@ -200,9 +204,10 @@ CbBegin(s, o) ==
       curOk == o.size = s.buf.size /\ o.used = s.buf.used /\ o.off = s.buf.off /\ o.tr = s.buf.tr /\ o.foff = s.foff
                /\ o.off + o.tr <= o.size /\ o.used <= o.size
       bytesOk == /\ o.mem = s.mem                                                 \* every byte where it belongs, nothing else touched
-                 /\ (IsRead(s) => /\ o.nb = Len(s.pend)                           \* counts add up to the data taken from the descriptor
-                                  /\ o.off >= o.nb /\ SubSeq(o.mem, o.off - o.nb + 1, o.off) = s.pend
-                                  /\ s.deliv \o s.pend \o s.q = s.sent \/ s.cfg.typ = "rw")
+                 /\ (IsRead(s) /\ s.cfg.typ # "notify" =>
+                       ( (o.nb = Len(s.pend))                                        \* counts add up to the data taken from the descriptor
+                         /\ (o.off >= o.nb) /\ (SubSeq(o.mem, o.off - o.nb + 1, o.off) = s.pend)
+                         /\ ((s.deliv \o s.pend \o s.q = s.sent) \/ (s.cfg.typ = "rw")) ))
       wrOk == ~IsRead(s) => o.off >= s.cfg.off0 /\ s.outw = SubSeq(o.mem, s.cfg.off0 + 1, o.off)   \* exactly the window, in order
       again == Kinds(o) \cap s.reps
       s1 == Chk(Chk(Chk(Chk(s, argsOk, "PROPERTY:CallbackArguments"), curOk, "PROPERTY:BufferCursors"),
@@ -219,6 +224,7 @@ CbBegin(s, o) ==
 CbArgs(s) == [same |-> 1, err |-> IF s.h.err = ANYERR THEN 104 ELSE s.h.err, eof |-> s.h.eof, nb |-> s.h.n, size |-> s.buf.size, used |-> s.buf.used,
               off |-> s.buf.off, tr |-> s.buf.tr, foff |-> s.foff, mem |-> s.mem]
 
+CbRead(s, ids) == [s EXCEPT !.q = SubSeq(@, Len(ids) + 1, Len(@)), !.deliv = @ \o ids]     \* a notify callback reads by itself
 CbRewind(s) == [s EXCEPT !.buf = [@ EXCEPT !.used = s.cfg.used0, !.off = s.cfg.off0, !.tr = s.cfg.tr0], !.outw = << >>]
 CbEnd(s, ret) == [s EXCEPT !.h = [@ EXCEPT !.ret = ret], !.lastret = ret,
                            !.pc = IF s.pc = "dead" THEN "dead" ELSE IF s.h.direct THEN "dstart" ELSE "post"]
